@@ -4,7 +4,7 @@
    Every proof is `exact <lemma>`.  The delivery part (a request only completes with data its
    validator accepted) is C01_delivery at the end, about the protocol model Model/Proto.v. *)
 From Coq Require Import ZArith List Bool String.
-From GW Require Import Prelude PyStr Crc16 Frames Responses CrcTable ModbusGen ProtoGen RtuResp CmdResp.
+From GW Require Import Prelude PyStr Crc16 Frames Responses CrcTable ModbusGen ProtoGen RtuResp CmdResp Proto ProtoEvolves.
 Import ListNotations.
 Open Scope Z_scope.
 
@@ -63,7 +63,15 @@ Proof. exact cmd_aa55_generic_sound. Qed.
 Theorem C01_crc : forall data, bytesP data -> _modbus_checksum data = Ok (crc16 data).
 Proof. exact modbus_checksum_spec. Qed.
 
+(* Delivery (protocol model, Model/Proto.v): in every run -- any interleaving of callers, answers, timeouts, connection
+   losses, on any number of event loops -- a request completes with data t only if the validator answered 'accept' on
+   exactly t (s_accepted collects the data validated with verdict VAccept, after fragment concatenation). *)
+Theorem C01_delivery : forall es k ka r s acts, Proto.run (Proto.init k ka r) es = Some (s, acts) ->
+  forall c t, In (ADone c (OResp t)) acts -> In t (s_accepted s).
+Proof. exact delivery. Qed.
+
 Print Assumptions C01_total.
+Print Assumptions C01_delivery.
 Print Assumptions C01_rtu_read_sound.
 Print Assumptions C01_rtu_write_sound.
 Print Assumptions C01_rtu_write_multi_sound.
